@@ -658,6 +658,21 @@ def run(chk, replay=None):
         if not cases and not tables and not writers:
             return
 
+    # ---- a connection that keeps delivering after it should have ended produces observations far too large to print
+    # as Coq terms: more deliveries than the stream has segments is a violation on its face (seeded/C09e2)
+    nsegs = {c["id"]: len(segs_of(c)[0]) for c in cases}
+    runaway = [(c, o) for c, o in zip(cases, obs) if len(o.get("delivered") or []) > nsegs[c["id"]] + 1]
+    for c, o in runaway[:3]:
+        o2 = dict(o)
+        o2["delivered"] = (o.get("delivered") or [])[:12]
+        chk.fail("runaway_case_%d.json" % c["id"],
+                 {"what": "the handler was given %d messages for a stream of %d segments: messages were delivered that the peer never "
+                          "framed (after an oversized / legacy / truncated frame the connection must end)" % (len(o["delivered"]), nsegs[c["id"]]),
+                  "cases": [c], "observed_first_deliveries": o2}, sig="c09-runaway-" + c["kind"])
+    rid = set(c["id"] for c, _ in runaway)
+    keep = [(c, o) for c, o in zip(cases, obs) if c["id"] not in rid]
+    cases, obs = [c for c, _ in keep], [o for _, o in keep]
+
     # ---- evaluate model + monitor inside Coq, sharded
     small = [(c, o) for c, o in zip(cases, obs) if not c["big"]]
     big = [(c, o) for c, o in zip(cases, obs) if c["big"]]
